@@ -30,9 +30,12 @@ let run op a =
   (* positions full n  ->  keys | positions *)
   | "positions" -> let r = fft_positions (b1 (g 0)) (n1 (g 1)) in
       out_z (List.map fst r) ^ "|" ^ out_n (List.map snd r)
-  (* mults fsn fsd full n -> keys | multipliers *)
-  | "mults" -> let r = psd_mults (z1 (g 0)) (z1 (g 1)) (b1 (g 2)) (n1 (g 3)) in
+  (* mults full n -> keys | multipliers *)
+  | "mults" -> let r = psd_mults (b1 (g 0)) (n1 (g 1)) in
       out_z (List.map fst r) ^ "|" ^ out_z (List.map snd r)
+  (* mults_orig fsn fsd n -> keys | pre-repair mask (history) *)
+  | "mults_orig" -> let r = psd_mults_orig (z1 (g 0)) (z1 (g 1)) (n1 (g 2)) in
+      out_z (List.map fst r) ^ "|" ^ String.concat " " (List.map (fun (_, b) -> out_b b) r)
   (* signal ts vs s e n(-1 = None)  ->  indices inside the epoch | crop_pad of their values | sum of squares *)
   | "signal" ->
       let ts = zs (g 0) and vs = ints (g 1) in
